@@ -4,3 +4,4 @@ import Proofs.Structure
 import Proofs.Range
 import Proofs.FlatInsertCore
 import Proofs.ShallowKeys
+import Proofs.GapBack
